@@ -42,6 +42,7 @@ type dgen struct {
 	names  []string
 	hasBad bool
 	noNull bool // no null defaults (a typed map element cannot hold null: json.Unmarshal leaves the zero value)
+	sep    string // separator mode: names[2] is names[0]+sep+names[1]
 }
 
 func (g *dgen) defaultFor(typ string, allowBad bool) any {
@@ -107,7 +108,19 @@ func (g *dgen) node(depth int, allowBad bool) map[string]any {
 		}
 	}
 	s["properties"] = props
-	if r.IntN(2) == 0 {
+	if g.sep != "" && r.IntN(2) == 0 {
+		// the joined name and its parts side by side, all with defaults; required lists that join to the same text
+		for _, name := range g.names[:3] {
+			if _, ok := props[name]; !ok {
+				props[name] = map[string]any{"type": "integer", "default": g.defaultFor("integer", false)}
+			}
+		}
+		if r.IntN(2) == 0 {
+			s["required"] = []any{g.names[2]}
+		} else {
+			s["required"] = []any{g.names[0], g.names[1]}
+		}
+	} else if r.IntN(2) == 0 {
 		var req []any
 		for _, name := range sortedKeys(props) {
 			if r.IntN(2) == 0 {
@@ -268,6 +281,13 @@ func (c15) Run(c *fw.Case) {
 	}
 	r := c.R
 	g := &dgen{r: r, names: []string{"a", "b", "c", "é"}, noNull: c.Idx%3 != 0}
+	if c.Idx%5 == 2 {
+		// names that are other names joined by a separator: whatever an implementation joins or splits (required lists, paths,
+		// cache keys) must keep ["a,b"] and ["a","b"] apart
+		sep := gen.Pick(r, []string{",", ",", " ", "/", "|", "\x00", ".", ":", "~1", "\n"})
+		g.names = []string{"a", "b", "a" + sep + "b", "c", "a" + sep + "b" + sep + "c", "b" + sep + "c"}
+		g.sep = sep
+	}
 	doc := g.node(0, c.Idx%2 == 0)
 	text := gen.Text(doc)
 	// L5
